@@ -327,6 +327,14 @@ def work_binary(bins, seed, n):
         v["dirty"] = False if v.get("dirty") else v.get("dirty")     # dirty would re-stamp bumped_timestamp in the pipeline
         if v.get("epoch") == 0:
             v["epoch"] = None
+        if rng.random() < 0.3:
+            # a version number the format cannot hold: what --output-format refuses, the template variable must not print either
+            fld = rng.choice(["major", "minor", "patch", "epoch", "post", "dev", "pre"])
+            big = rng.choice([2 ** 32, 2 ** 32 + 7, 5 * 10 ** 9, 2 ** 63, 2 ** 64 - 1])
+            if fld == "pre":
+                v["pre_release"] = (rng.choice(["Alpha", "Beta", "Rc"]), big)
+            else:
+                v[fld] = big
         text = ron.zerv_to_ron(schema, v)
         direct = {}
         ok = True
@@ -335,6 +343,13 @@ def work_binary(bins, seed, n):
             k += 1
             if r["exit"] != 0:
                 ok = False
+                # refused by --output-format: `{{ semver }}` / `{{ pep440 }}` "equal what --output-format prints" - there is nothing they could equal
+                for var in ((fmt,) if fmt == "semver" else (fmt, "pep440_obj.base_part")):
+                    rt = core.run_zerv(bins, ["version", "--source", "stdin", "--output-template", "{{ %s }}" % var], stdin=text)
+                    k += 1
+                    if rt["exit"] == 0:
+                        bad.append(("template-%s-differs" % fmt, "[binary] --output-format %s refuses this object (%s) but the template variable {{ %s }} prints %r" % (
+                            fmt, r["err"].strip()[:120], var, rt["out"].rstrip("\n")), dict(kind="bin", ron=text)))
                 break
             direct[fmt] = r["out"].rstrip("\n")
         if not ok:
